@@ -139,6 +139,21 @@ func runCheck(repo, verif, prop, tier string, t0 time.Time) (int, error) {
 	}
 	tGen := time.Since(t0)
 	prog.solveAll(dir, obls, timeout, allSolvers, 12)
+	// an obligation left undecided may only have run out of time because the machine was busy: every
+	// undecided one is tried again, two at a time, with twice the budget and all three solvers, before it is reported
+	var again []*Obligation
+	for _, o := range obls {
+		if o.Status != "discharged" && o.Status != "failed" && o.Status != "disagreement" && !o.Projected {
+			again = append(again, o)
+		}
+	}
+	if len(again) > 0 && len(again) <= 12 {
+		for _, o := range again {
+			o.Status, o.Output = "", ""
+		}
+		prog.solveAll(filepath.Join(dir), again, timeout*2, true, 3)
+		fmt.Fprintf(os.Stderr, "retried %d undecided obligations with %d s each\n", len(again), timeout*2)
+	}
 	tSolve := time.Since(t0) - tGen
 	// lemmas over the spec functions (SMT-LIB files asserting the negated claim): must be unsat
 	lemmaReports := []map[string]interface{}{}
